@@ -161,3 +161,34 @@ def rng(*salt):
 
 def sha(b):
     return hashlib.sha256(b).hexdigest()
+
+
+_COMMA = [False, None]
+
+
+def comma_locale_env():
+    """Environment (LOCPATH + LC_ALL/LANG) of a locale whose decimal point is ',' - built with localedef into the scratch directory.
+    Returns None if it cannot be built or does not take effect. The translator's output must not depend on its locale environment."""
+    if _COMMA[0]:
+        return _COMMA[1]
+    _COMMA[0] = True
+    try:
+        d = subdir('comma-locale')
+        src = os.path.join(d, 'src')
+        os.makedirs(src, exist_ok=True)
+        os.makedirs(os.path.join(d, 'locale'), exist_ok=True)
+        open(os.path.join(src, 'xx_XX'), 'w').write('comment_char %\nescape_char /\nLC_NUMERIC\ndecimal_point ","\nthousands_sep ""\ngrouping -1\nEND LC_NUMERIC\n')
+        cm = '<code_set_name> ANSI_X3.4-1968\n<comment_char> %\n<escape_char> /\nCHARMAP\n' + ''.join('<U%04X>     /x%02x         C%d\n' % (i, i, i) for i in range(128)) + 'END CHARMAP\n'
+        open(os.path.join(src, 'ASCII.cm'), 'w').write(cm)
+        run(['localedef', '-c', '-i', os.path.join(src, 'xx_XX'), '-f', os.path.join(src, 'ASCII.cm'), os.path.join(d, 'locale', 'xx_XX')], timeout=60)
+        probe = os.path.join(d, 'probe')
+        open(probe + '.c', 'w').write('#include <locale.h>\n#include <stdio.h>\nint main(void) { if (!setlocale(LC_ALL, "")) return 1; printf("%.2g\\n", 1.5); return 0; }\n')
+        if run(['gcc', '-w', probe + '.c', '-o', probe], timeout=60).rc != 0:
+            return None
+        e = {'LOCPATH': os.path.join(d, 'locale'), 'LC_ALL': 'xx_XX', 'LANG': 'xx_XX'}
+        r = run([probe], env=dict(os.environ, **e), timeout=20)
+        if r.rc == 0 and r.out.strip() == '1,5':
+            _COMMA[1] = e
+    except Exception:
+        _COMMA[1] = None
+    return _COMMA[1]
